@@ -3,7 +3,10 @@ package mon
 import (
 	"fmt"
 	"math/rand/v2"
+	"os"
+	"strconv"
 	"strings"
+	"time"
 
 	"verif/harness/internal/model"
 	"verif/harness/internal/run"
@@ -131,6 +134,66 @@ var kC20 = run.NewKind("c20.footprint", func(c *run.Ctx, t c20Case) *run.Fail {
 	return nil
 })
 
+// ---- the command consuming a long input stream from a pipe ----
+//
+// `inputs`, the main input loop and `--stream` are iteration forms of the statement too; their state lives in the
+// command's input reader. The monitor is the kernel's peak resident set size of the gojq process (reported by
+// /usr/bin/time, which waits for it) for the same stream at 4 MiB and at 48 MiB: a reader that retains what it has
+// consumed grows by the size of the input (44 MiB), the bound allows 24 MiB for collector timing.
+type c20CmdCase struct {
+	Style string   // line discipline of the generated stream
+	Args  []string // flags and query
+}
+
+var c20Units = map[string]string{
+	"lf": "{\"a\":1,\"b\":[2]}\n", "pretty": "{\n  \"a\": 1,\n  \"b\": [\n    2\n  ]\n}\n", "crlf": "{\"a\":1,\"b\":[2]}\r\n", "cr": "{\"a\":1,\"b\":[2]}\r", "prettycrlf": "{\r\n  \"a\": 1,\r\n  \"b\": [2]\r\n}\r\n",
+	"space": "{\"a\":1,\"b\":[2]} ", "tab-indented": "{\n\t\"a\": 1,\n\t\"b\": [\n\t\t2\n\t]\n}\n", "mixed": "{\"a\":1,\r\"b\":[2]}\n\n", "long-line": "{\"a\":1,\"b\":[2],\"pad\":\"" + strings.Repeat("x", 3000) + "\"}\n",
+}
+
+var kC20Cmd = run.NewKind("c20.command-rss", func(c *run.Ctx, t c20CmdCase) *run.Fail {
+	unit, ok := c20Units[t.Style]
+	if !ok {
+		return run.Failf("bad style")
+	}
+	if _, err := os.Stat("/usr/bin/time"); err != nil {
+		c.Inconclusive("no-/usr/bin/time")
+		return nil
+	}
+	var rss [2]int64
+	var outs [2]string
+	sizes := []int{4 << 20, 48 << 20}
+	for k, size := range sizes {
+		n := size / len(unit)
+		res := run.CLI(run.CLIOpt{Wrap: []string{"/usr/bin/time", "-f", "VERIF-MAXRSS %M"}, Args: t.Args, Stdin: []byte(strings.Repeat(unit, n)), Timeout: 300 * time.Second})
+		if res.TimedOut || res.StartErr != nil {
+			c.Inconclusive("cli-timeout")
+			return nil
+		}
+		i := strings.LastIndex(string(res.Stderr), "VERIF-MAXRSS ")
+		if i < 0 || res.Code != 0 {
+			return run.Failf("gojq %q on a %d MiB %s stream: exit %d, stderr %s", t.Args, size>>20, t.Style, res.Code, run.Clip(string(res.Stderr)))
+		}
+		kib, err := strconv.ParseInt(strings.TrimSpace(string(res.Stderr)[i+len("VERIF-MAXRSS "):]), 10, 64)
+		if err != nil {
+			c.Inconclusive("unreadable-rss")
+			return nil
+		}
+		rss[k] = kib
+		outs[k] = strings.TrimSpace(string(res.Stdout))
+		if want := strconv.Itoa(n); outs[k] != want {
+			return run.Failf("gojq %q on a stream of %d values printed %q", t.Args, n, run.Clip(outs[k]))
+		}
+		c.Count("stream_values_consumed", int64(n))
+	}
+	c.Logf("peak RSS %d KiB for 4 MiB, %d KiB for 48 MiB", rss[0], rss[1])
+	c.Gauge("max_peak_rss_kib_48MiB", rss[1])
+	if rss[1] > rss[0]+24*1024 {
+		return run.Failf("gojq %q reading a %s stream from a pipe: peak resident set %d KiB for 4 MiB of input, %d KiB for 48 MiB (grows with the amount consumed)", t.Args, t.Style, rss[0], rss[1])
+	}
+	c.Nontrivial("cmd|" + t.Style + "|" + strings.Join(t.Args, " "))
+	return nil
+})
+
 var c20Gens = []string{
 	"range(infinite)", "range(1e9)", "range(0; 1e9; 3)", "range($n * 100)", "range(0; infinite; 1)", "range(5; -infinite; -1)",
 	"0 | while(true; . + 1)", "0 | while(. < 1e9; . + 2)", "repeat(1)", "0 | repeat(. + 1)", "0 | recurse(. + 1)", "0 | recurse(. + 1; true)", "0 | recurse(. + 1; . < 1e9)",
@@ -240,6 +303,19 @@ func init() {
 				}
 				for _, src := range c20Loops {
 					kC20.Do(c, c20Case{Src: src, Mode: "loop", N: n})
+				}
+			}
+			// the command: every line discipline x every way of consuming the stream
+			styles := []string{"lf", "pretty", "crlf", "cr", "prettycrlf", "space", "tab-indented", "mixed", "long-line"}
+			for si, style := range styles {
+				for ai, args := range [][]string{{"-n", "reduce inputs as $x (0; . + $x.a)"}, {"-n", "[limit(1e9; inputs)] | length"}, {"-n", "last(foreach inputs as $x (0; . + 1))"}, {"-c", "-n", "reduce (inputs | .b[0]) as $x (0; . + $x) / 2"}} {
+					if ai == 1 {
+						continue // collecting all inputs legitimately needs memory
+					}
+					if c.Quick() && (si+ai)%3 != 0 {
+						continue
+					}
+					kC20Cmd.Do(c, c20CmdCase{Style: style, Args: args})
 				}
 			}
 			r := c.Rand("c20")
